@@ -214,8 +214,11 @@ package ipfslog
 //@   acquires l.lock
 //@   lockrequires noLocksHeld()
 //@   ensures result != nil && fresh(result) && result.ID == l.ID && len(result.Heads) == len(om(l.heads).keys)
+//@   ensures [published-heads-are-heads-of-the-log] forall i int :: 0 <= i && i < len(result.Heads) ==> exists k string :: has(om(l.heads).values, k) && result.Heads[i] == om(l.heads).values[k].Hash
 //@   loop 0
 //@     invariant len(hashes) == $k && off(hashes) == 0 && (hashes == nil || fresh(hashes)) && validSlice(stack)
+//@     invariant forall i int :: 0 <= i && i < len(stack) ==> exists k string :: has(om(l.heads).values, k) && stack[i] == om(l.heads).values[k]
+//@     invariant forall i int :: 0 <= i && i < $k ==> hashes[i] == stack[i].Hash
 
 //@ func (*IPFSLog).SetIdentity
 //@   requires logInv(l) && identity != nil && identity.Provider != nil && identity.Signatures != nil
@@ -235,12 +238,19 @@ package ipfslog
 
 //@ func toMultihash
 //@   requires logInv(log) && services != nil
+//@   requires [log-blocks-are-stored] storedLog(log)
+//@   modifies stored, lastAdded, addCount
+//@   ensures [publication-writes-the-manifest-of-the-current-heads] err == nil ==> stored[result0] && result0 == lastAdded && addCount == old(addCount) + 1
+//@   ensures [store-only-grows] forall c cid :: old(stored[c]) ==> stored[c]
 //@   replay racelog
 //@   lockrequires noLocksHeld()
 
 //@ func (*IPFSLog).ToMultihash
-//@   requires logInv(l)
+//@   requires logInv(l) && storedLog(l)
 //@   lockrequires noLocksHeld()
+//@   modifies stored, lastAdded, addCount
+//@   ensures [publication-writes-the-manifest-of-the-current-heads] err == nil ==> stored[result0] && result0 == lastAdded && addCount == old(addCount) + 1
+//@   ensures [store-only-grows] forall c cid :: old(stored[c]) ==> stored[c]
 
 // ---- Iterator (C15) ----
 //@ func (*IPFSLog).Iterator
@@ -298,6 +308,7 @@ package ipfslog
 //@   modifies fields(options)
 //@   ensures services == nil || identity == nil ==> err != nil
 //@   ensures [new-log-establishes-the-invariant] err == nil ==> result0 != nil && fresh(result0) && logInv(result0) && result0.Identity == identity
+//@   ensures [new-log-blocks-are-stored] err == nil && options != nil && old(options.Entries) != nil && (forall k string :: has(om(old(options.Entries)).values, k) ==> stored[om(old(options.Entries)).values[k].Hash]) && (forall i int :: 0 <= i && i < old(len(options.Heads)) ==> stored[old(options.Heads[i]).Hash]) && old(len(options.Heads)) > 0 ==> storedLog(result0)
 //@   ensures [new-log-holds-the-given-entries] err == nil && options != nil && old(options.Entries) != nil ==> forall k string :: has(om(result0.Entries).values, k) == has(om(old(options.Entries)).values, k) && (has(om(old(options.Entries)).values, k) ==> om(result0.Entries).values[k] == om(old(options.Entries)).values[k])
 //@   lockensures err == nil ==> held[result0.lock] == 0
 //@   loop 0
@@ -319,11 +330,14 @@ package ipfslog
 //@ func (*IPFSLog).Join
 //@   requires l == nil || logInv(l)
 //@   requires otherLog == nil || l == nil || otherOK(l, otherLog)
+//@   requires [log-blocks-are-stored] l != nil ==> storedLog(l)
+//@   requires [source-log-blocks-are-stored] otherLog != nil && l != nil && otherLog.(*IPFSLog) != l ==> storedLog(otherLog.(*IPFSLog))
 //@   lockrequires noLocksHeld()
 //@   flag go forkjoin
 //@   modifies l.Clock, l.heads, l.Entries, om(l.Entries).keys, mapof(om(l.Entries).values), om(l.Next).keys, mapof(om(l.Next).values)
 //@   ensures [join-rejects-missing-arguments] otherLog == nil || l == nil ==> err != nil
 //@   ensures [join-preserves-the-log-invariant] l != nil ==> logInv(l)
+//@   ensures [log-blocks-are-stored-on-every-exit] l != nil ==> storedLog(l)
 //@   ensures [size-bounded-join-keeps-at-most-size-entries] err == nil && size >= 0 && otherLog != nil && otherLog.(*IPFSLog) != l && l.ID == otherLog.(*IPFSLog).ID ==> len(om(l.Entries).keys) <= size
 //@   ensures [every-head-is-an-entry-after-a-bounded-join] err == nil && size >= 0 && otherLog != nil && otherLog.(*IPFSLog) != l && l.ID == otherLog.(*IPFSLog).ID ==> forall k string :: has(om(l.heads).values, k) ==> has(om(l.Entries).values, k)
 //@   ensures [failed-join-changes-nothing] err != nil && l != nil ==> l.heads == old(l.heads) && l.Entries == old(l.Entries) && l.Next == old(l.Next) && l.Clock == old(l.Clock) && om(l.Entries).keys == old(om(l.Entries).keys) && om(l.Next).keys == old(om(l.Next).keys) && (forall k string :: has(om(l.Entries).values, k) == old(has(om(l.Entries).values, k)) && om(l.Entries).values[k] == old(om(l.Entries).values[k]) && has(om(l.Next).values, k) == old(has(om(l.Next).values, k)) && om(l.Next).values[k] == old(om(l.Next).values[k]))
@@ -337,12 +351,14 @@ package ipfslog
 //@   loop 1
 //@     invariant validEntries(newItems) && fresh(newItems) && fresh(om(newItems).values) && freshKeys(om(newItems))
 //@     invariant validEntries(l.Entries) && isOM(l.Next) && sepMaps(l)
+//@     invariant forall k string :: has(om(newItems).values, k) ==> stored[om(newItems).values[k].Hash]
 //@     invariant forall k string :: has(om(l.Entries).values, k) ==> (old(has(om(l.Entries).values, k)) && om(l.Entries).values[k] == old(om(l.Entries).values[k])) || (has(om(newItems).values, k) && om(l.Entries).values[k] == om(newItems).values[k])
 //@     invariant forall k string :: old(has(om(l.Entries).values, k)) ==> has(om(l.Entries).values, k) && om(l.Entries).values[k] == old(om(l.Entries).values[k])
 //@     loopmodifies om(l.Next).keys, mapof(om(l.Next).values), om(l.Entries).keys, mapof(om(l.Entries).values)
 //@   loop 2
 //@     invariant validEntries(newItems) && fresh(newItems) && fresh(om(newItems).values) && freshKeys(om(newItems))
 //@     invariant validEntries(l.Entries) && isOM(l.Next) && sepMaps(l) && validEntry(e)
+//@     invariant forall k string :: has(om(newItems).values, k) ==> stored[om(newItems).values[k].Hash]
 //@     invariant forall k string :: has(om(l.Entries).values, k) ==> (old(has(om(l.Entries).values, k)) && om(l.Entries).values[k] == old(om(l.Entries).values[k])) || (has(om(newItems).values, k) && om(l.Entries).values[k] == om(newItems).values[k])
 //@     invariant forall k string :: old(has(om(l.Entries).values, k)) ==> has(om(l.Entries).values, k) && om(l.Entries).values[k] == old(om(l.Entries).values[k])
 //@     loopmodifies om(l.Next).keys, mapof(om(l.Next).values), om(l.Entries).keys, mapof(om(l.Entries).values)
@@ -354,6 +370,7 @@ package ipfslog
 //@     invariant mergedHeads == nil || fresh(mergedHeads)
 //@     invariant forall i int :: 0 <= i && i < $k ==> mergedHeads[i] == nil || validEntry(mergedHeads[i])
 //@     invariant forall i int :: $k <= i && i < len(mergedHeads) ==> validEntry(mergedHeads[i])
+//@     invariant forall i int :: 0 <= i && i < len(mergedHeads) && mergedHeads[i] != nil ==> stored[mergedHeads[i].Hash]
 //@     loopfresh
 
 // ---- log_io.go (C10, C09): loaders ----
